@@ -14,10 +14,16 @@ def ref_string(case, e, other=False):
     return s
 
 
+def _define(scope, var, value):
+    if scope.get(var, value) != value:
+        raise ValueError('conflicting definitions of %s in one scope' % var)
+    scope[var] = value
+
+
 def build_doc(case):
     """Returns (flowir dict, manifest dict)."""
     comps = []
-    gvars, svars = {}, {}
+    gvars, svars, cvars = {}, {}, {}
     for j, c in enumerate(case['comps']):
         refs, args = [], []
         for e in c['refs']:
@@ -41,20 +47,56 @@ def build_doc(case):
         wa = {}
         if c.get('rep'):
             form = c['rep'].get('form', 'lit')
+            n = c['rep']['n']
+            stage = c['stage']
             if form == 'lit':
-                wa['replicate'] = c['rep']['n']
-            else:
+                wa['replicate'] = n
+            elif form in ('gvar', 'svar'):
                 var = 'n%d' % j
                 wa['replicate'] = '%%(%s)s' % var
                 if form == 'gvar':
-                    gvars[var] = c['rep']['n']
+                    _define(gvars, var, n)
                 else:
-                    svars.setdefault(c['stage'], {})[var] = c['rep']['n']
+                    _define(svars.setdefault(stage, {}), var, n)
+            else:
+                # one variable name defined in several scopes; the documented layering (global < stage < component)
+                # makes the requester see n; the other definitions must not reach it
+                wa['replicate'] = '%(n)s'
+                others = [x for x in range(len(case['comps'])) if x != j]
+                if form == 'cvar':
+                    _define(cvars.setdefault(j, {}), 'n', n)
+                elif form == 'g+othercomp':
+                    _define(gvars, 'n', n)
+                    for x in others:
+                        _define(cvars.setdefault(x, {}), 'n', n + 1)
+                elif form == 'g+otherstage':
+                    other_stages = sorted(set(x['stage'] for x in case['comps']) - set([stage]))
+                    if not other_stages:
+                        raise ValueError('form g+otherstage needs a second stage')
+                    _define(gvars, 'n', n)
+                    for st in other_stages:
+                        _define(svars.setdefault(st, {}), 'n', n + 1)
+                elif form == 's>g':
+                    _define(svars.setdefault(stage, {}), 'n', n)
+                    _define(gvars, 'n', n + 1)
+                elif form == 'c>s>g':
+                    _define(cvars.setdefault(j, {}), 'n', n)
+                    _define(svars.setdefault(stage, {}), 'n', n + 1)
+                    _define(gvars, 'n', n + 2)
+                elif form == 's+othercomp':
+                    _define(svars.setdefault(stage, {}), 'n', n)
+                    for x in others:
+                        if case['comps'][x].get('rep') is None:
+                            _define(cvars.setdefault(x, {}), 'n', n + 1)
+                else:
+                    raise ValueError('unknown form %r' % (form,))
         if c.get('agg'):
             wa['aggregate'] = True
         if wa:
             d['workflowAttributes'] = wa
         comps.append(d)
+    for x, v in cvars.items():
+        comps[x]['variables'] = dict(v)
     doc = {'components': comps}
     if gvars or svars:
         v = {}
@@ -145,7 +187,14 @@ def family_structure(thorough):
                 single = [j for j in range(k) if rep[j] is not None]
                 form_sets = [{}]
                 if len(single) == 1 and rep[single[0]] == 2:
-                    form_sets += [{single[0]: 'gvar'}, {single[0]: 'svar'}]
+                    j = single[0]
+                    form_sets += [{j: f} for f in (('gvar', 'svar', 'cvar', 'g+othercomp', 's>g', 'c>s>g',
+                                                    's+othercomp') if k <= 3 else ('gvar', 'svar', 'g+othercomp'))]
+                    if len(set(stages)) > 1:
+                        form_sets.append({j: 'g+otherstage'})
+                elif len(single) == 2:
+                    # both requesters through the same variable name, each defined in its own component scope
+                    form_sets.append({single[0]: 'cvar', single[1]: 'cvar'})
                 for sp in _spellings(stages, edges, full=(k <= 3)):
                     for forms in form_sets:
                         if forms and any(sp.values()) and k > 2:
@@ -169,6 +218,8 @@ def family_names(thorough):
     patterns = []
     for stages in ((0, 0, 0), (0, 0, 1), (0, 1, 1)):
         for rep in ((2, None, None), (None, 2, None), (2, 2, None)) + (((3, 3, None),) if thorough else ()):
+            if not thorough and rep == (None, 2, None) and stages[0] == stages[1]:
+                continue    # quick: X and Y are interchangeable here (all ordered name pairs are enumerated)
             for aggc in (False, True):
                 patterns.append((stages, ((0, 2), (1, 2)), rep, (False, False, aggc)))
         if stages[0] == stages[1] or thorough:
@@ -249,6 +300,26 @@ def family_paths(thorough):
                         yield ('P', NEUTRAL[:2], (0, cstage), ((0, 1),), (n, None), (False, aggc), labels, {}, False)
 
 
+def family_large(thorough):
+    """L: replica counts with two-digit indices (copies 10, 11 sort before 2 as text): X -> C and X -> M -> C,
+    last component aggregating or not."""
+    for n in (10, 11, 12) if thorough else (11,):
+        for k in (2, 3):
+            edges = tuple((i, i + 1) for i in range(k - 1))
+            for stages in ((0,) * k, (0,) * (k - 1) + (1,)):
+                for agg_last in (False, True):
+                    for ab in (False, True):
+                        for kind in ((None, 'ref'), ('out.txt', 'ref')) if k == 2 else ((None, 'ref'),):
+                            for arg in ('same', 'path'):
+                                if arg == 'path' and kind[0] is not None:
+                                    continue
+                                if ab and stages[-1] == 1 and k == 2:
+                                    continue    # the only edge is cross-stage: already absolute
+                                labels = dict((e, (ab, kind[0], kind[1], arg)) for e in edges)
+                                yield ('L', NEUTRAL[:k], stages, edges, (n,) + (None,) * (k - 1),
+                                       (False,) * (k - 1) + (agg_last,), labels, {}, False)
+
+
 def case_from_item(item):
     fam, names, stages, edges, rep, agg, labels, forms, rev = item[:9]
     direct = item[9] if len(item) > 9 else None
@@ -262,6 +333,6 @@ def case_from_item(item):
 
 
 def all_items(thorough):
-    for fam in (family_structure, family_names, family_directs, family_paths):
+    for fam in (family_structure, family_names, family_directs, family_paths, family_large):
         for it in fam(thorough):
             yield it
